@@ -145,3 +145,12 @@ package cstate
 //@   modifies *
 //@   opt assumecallreqs
 //@   atcall calculateValidatorSetUpdates requires [diffedAgainstTheNextSet] state.NextValidators != nil && lastVals == state.NextValidators.Validators
+
+// The genesis state's next validator set is the genesis set rotated ONCE (the second block's proposer is
+// one rotation after the first block's), whatever the initial height.
+//@ func MakeGenesisState(genDoc *genesis.Genesis) (r LatestBlockState, err error)
+//@   for C12
+//@   requires genDoc != nil
+//@   modifies *
+//@   opt assumecallreqs
+//@   atcall ValidatorSet.CopyIncrementProposerPriority requires [nextSetIsOneRotationAhead] times == 1
